@@ -1,4 +1,7 @@
+#![allow(unexpected_cfgs)]
 mod gen;
+#[cfg(decstr_verif)]
+mod hooks;
 mod ops;
 mod sweep;
 mod util;
@@ -207,6 +210,8 @@ fn plan(prop: &str, o: &mut Out) {
             pats.extend(top_halfword_patterns(o, 4, 61));
             g_on_patterns(o, "format", &pats.into_iter().filter(|p| matches!(p.len(), 4 | 8 | 16)).collect::<Vec<_>>(), &[]);
         }
+        #[cfg(decstr_verif)]
+        "X05" => hooks::g_x05(o),
         _ => panic!("unknown property {}", prop),
     }
 }
@@ -239,6 +244,10 @@ fn main() {
                             c.iter()
                                 .map(|l| {
                                     let req = l.rsplit('\t').next().unwrap();
+                                    #[cfg(decstr_verif)]
+                                    if req.starts_with("x_") {
+                                        return hooks::run_line(req);
+                                    }
                                     ops::run_line(req)
                                 })
                                 .collect::<Vec<String>>()
@@ -251,6 +260,8 @@ fn main() {
             });
             let out = std::io::stdout();
             let mut w = BufWriter::new(out.lock());
+            #[cfg(decstr_verif)]
+            hooks::summary(&results);
             for r in results {
                 for l in r {
                     writeln!(w, "{}", l).unwrap();
@@ -283,6 +294,11 @@ fn main() {
         Some("one") => {
             // run a single request given on the command line
             let req = args[2..].join(" ");
+            #[cfg(decstr_verif)]
+            if req.starts_with("x_") {
+                println!("{}", hooks::run_line(&req));
+                return;
+            }
             println!("{}", ops::run_line(&req));
         }
         _ => {
